@@ -94,12 +94,131 @@ func spec_pkgInfoOf(p Package) *pkgInfo { pi, _ := p.(*pkgInfo); return pi }
 //@   ensures forall n string :: spec_scopeConst(pkg, n) != nil ==> has(spec_pkgInfoOf(result).constants, n)
 //@   ensures forall n string :: has(spec_pkgInfoOf(result).funcs, n) ==> spec_pkgInfoOf(result).funcs[n] != nil && spec_pkgInfoOf(result).funcs[n] == spec_scopeFunc(pkg, n)
 //@   ensures forall n string :: spec_scopeFunc(pkg, n) != nil ==> has(spec_pkgInfoOf(result).funcs, n)
+//@   ensures spec_methodsOK(spec_pkgInfoOf(result)) && spec_importsOK(spec_pkgInfoOf(result))
 //@   loop 1 invariant p != nil && p.Package == pkg && p.u == u && p.types != nil && p.constants != nil && p.funcs != nil && p.methods != nil
 //@   loop 1 invariant forall n string :: has(p.types, n) ==> p.types[n] != nil && p.types[n] == spec_scopeType(pkg, n)
 //@   loop 1 invariant forall n string :: has(p.constants, n) ==> p.constants[n] != nil && p.constants[n] == spec_scopeConst(pkg, n)
 //@   loop 1 invariant forall n string :: has(p.funcs, n) ==> p.funcs[n] != nil && p.funcs[n] == spec_scopeFunc(pkg, n)
 //@   loop 1 invariant forall a int :: 0 <= a && a < it1 ==> spec_recorded(p, pkg, pkg.TypesInfo.Defs[ks1[a]])
+//@   loop 1 invariant spec_methodsOK(p)
 //@   note the name->object tables hold exactly the package-scope type names / constants / functions of the type checker, whatever order types.Info.Defs (a map) is iterated in (C04): a function-local declaration or a type parameter of the same name can never win
+
+// spec_recvNamed(f): the named type a method is declared on (through a pointer receiver too); nil for functions.
+func spec_recvNamed(f *types.Func) *types.Named {
+	if spec_recvOf(f) == nil {
+		return nil
+	}
+	if pt, ok := spec_recvOf(f).Type().(*types.Pointer); ok {
+		n, _ := pt.Elem().(*types.Named)
+		return n
+	}
+	n, _ := spec_recvOf(f).Type().(*types.Named)
+	return n
+}
+
+func spec_isPtrRecv(f *types.Func) bool {
+	_, ok := spec_recvOf(f).Type().(*types.Pointer)
+	return ok
+}
+
+// spec_methodsOK: every method listed under N is declared on (an instantiation of) N — grouped by the ORIGIN type.
+func spec_methodsOK(p *pkgInfo) bool {
+	return spec_all(func(N *types.Named) bool {
+		return spec_forallIn(0, len(p.methods[N]), func(i int) bool {
+			return p.methods[N][i] != nil && spec_recvOf(p.methods[N][i]) != nil && spec_recvNamed(p.methods[N][i]) != nil && spec_recvNamed(p.methods[N][i]).Origin() == N
+		})
+	})
+}
+
+//@ func pkgInfo.MethodsOf
+//@   props C13
+//@   pure
+//@   requires p != nil && n != nil && spec_methodsOK(p)
+//@   ensures ptr ==> eq(result, p.methods[n.Origin()])
+//@   ensures forall i int :: 0 <= i && i < len(result) ==> result[i] != nil && spec_recvNamed(result[i]) != nil && spec_recvNamed(result[i]).Origin() == n.Origin() && (!ptr ==> !spec_isPtrRecv(result[i]))
+//@   ensures !ptr ==> forall j int :: 0 <= j && j < len(p.methods[n.Origin()]) && !spec_isPtrRecv(p.methods[n.Origin()][j]) ==> (exists i int :: 0 <= i && i < len(result) && result[i] == p.methods[n.Origin()][j])
+//@   loop 1 invariant forall i int :: 0 <= i && i < len(notPtrMethods) ==> notPtrMethods[i] != nil && spec_recvNamed(notPtrMethods[i]) != nil && spec_recvNamed(notPtrMethods[i]).Origin() == n.Origin() && !spec_isPtrRecv(notPtrMethods[i])
+//@   loop 1 invariant forall j int :: 0 <= j && j < it1 && !spec_isPtrRecv(funcs[j]) ==> (exists i int :: 0 <= i && i < len(notPtrMethods) && notPtrMethods[i] == funcs[j])
+//@   note MethodsOf(T, true) is the list recorded for T's origin type (so generic T works); MethodsOf(T, false) exactly its value-receiver methods
+
+//@ func pkgInfo.Type
+//@   props C13
+//@   pure
+//@   requires p != nil
+//@   ensures result == p.types[n]
+//@ func pkgInfo.Types
+//@   props C13
+//@   pure
+//@   requires p != nil
+//@   ensures eq(result, p.types)
+//@ func pkgInfo.Constant
+//@   props C13
+//@   pure
+//@   requires p != nil
+//@   ensures result == p.constants[n]
+//@ func pkgInfo.Constants
+//@   props C13
+//@   pure
+//@   requires p != nil
+//@   ensures eq(result, p.constants)
+//@ func pkgInfo.Function
+//@   props C13
+//@   pure
+//@   requires p != nil
+//@   ensures result == p.funcs[n]
+//@ func pkgInfo.Functions
+//@   props C13
+//@   pure
+//@   requires p != nil
+//@   ensures eq(result, p.funcs)
+
+// spec_importsOK: representation invariant of the lazily resolved import table: an entry is unresolved (nil) or
+// is what the universe returns for that path.
+func spec_importsOK(p *pkgInfo) bool {
+	return p.imports != nil && spec_all(func(q string) bool {
+		return !spec_has(p.imports, q) || p.imports[q] == nil || p.imports[q] == p.u.Package(q)
+	})
+}
+
+//@ func pkgInfo.Imports
+//@   props C13
+//@   requires p != nil && p.Package != nil && p.u != nil && spec_importsOK(p)
+//@   assigns p.imports
+//@   ensures eq(result, p.imports) && spec_importsOK(p)
+//@   ensures forall q string :: has(p.Package.Imports, q) ==> has(result, q) && result[q] == p.u.Package(q)
+//@   loop 1 invariant spec_importsOK(p)
+//@   loop 1 invariant forall a int :: 0 <= a && a < it1 ==> has(p.imports, ks1[a]) && p.imports[ks1[a]] == p.u.Package(ks1[a])
+//@   note every import path of the package maps to what Universe.Package(path) returns (after Load: the registered, non-nil package), resolved when Imports() is called
+
+//@ func pkgInfo.Module
+//@   props C13
+//@   pure
+//@   requires p != nil && p.Package != nil
+//@   ensures result == p.Package.Module
+
+//@ func pkgInfo.Pkg
+//@   props C13
+//@   pure
+//@   requires p != nil && p.Package != nil
+//@   ensures result == p.Package.Types
+
+//@ func pkgInfo.Files
+//@   props C13
+//@   pure
+//@   requires p != nil && p.Package != nil
+//@   ensures eq(result, p.Package.Syntax)
+
+//@ func pkgInfo.SourceDir
+//@   props C13 C07
+//@   requires p != nil
+//@   assigns p.sourceDir
+//@   ensures old(p.sourceDir) != nil ==> result == old(*p.sourceDir)
+//@   ensures old(p.sourceDir) == nil && (p.Package == nil || p.Package.Module == nil) ==> result == ""
+//@   ensures old(p.sourceDir) == nil && p.Package != nil && p.Package.Module != nil && p.Package.PkgPath == p.Package.Module.Path ==> result == p.Package.Module.Dir
+//@   ensures old(p.sourceDir) == nil && p.Package != nil && p.Package.Module != nil && p.Package.PkgPath != p.Package.Module.Path ==> result == filepath.Join(p.Package.Module.Dir, p.Package.PkgPath[len(p.Package.Module.Path):])
+//@   ensures p.sourceDir != nil && *p.sourceDir == result
+//@   assume p.Package != nil && p.Package.Module != nil ==> len(p.Package.Module.Path) <= len(p.Package.PkgPath)
+//@   note (assume) go/packages: the module path is a prefix of the path of every package of the module. The result is memoised: a second call returns the same string.
 
 // spec_recorded: a visited definition that is a package-scope type name / constant / function is in its table.
 func spec_recorded(p *pkgInfo, pkg *packages.Package, o types.Object) bool {
@@ -359,6 +478,8 @@ func spec_any[T any](p func(T) bool) bool               { panic("ghost: unbounde
 func spec_fresh(p any) bool                             { panic("ghost: allocation predicate") }
 // spec_existed(p): the object p refers to already existed when the function under verification was entered.
 func spec_existed(p any) bool { panic("ghost: allocation predicate") }
+// spec_zeroValue(p): p was allocated by reflect.New and nothing has been stored into it through reflection since: it holds the zero value of its type (ghost).
+func spec_zeroValue(p any) bool { panic("ghost: zero-value predicate") }
 func spec_assert(c bool) {
 	if !c {
 		panic("ghost assertion failed")
